@@ -26,7 +26,7 @@ class ExceptionCounter:
         return False
 
     def __call__(self, f: "F") -> "F":
-        def wrapped(func, *args, **kwargs):
+        def wrapped(func, /, *args, **kwargs):
             with self:
                 return func(*args, **kwargs)
 
@@ -44,7 +44,7 @@ class InprogressTracker:
         self._gauge.dec()
 
     def __call__(self, f: "F") -> "F":
-        def wrapped(func, *args, **kwargs):
+        def wrapped(func, /, *args, **kwargs):
             with self:
                 return func(*args, **kwargs)
 
@@ -73,7 +73,7 @@ class Timer:
         self._metric = self._metric.labels(*args, **kw)
 
     def __call__(self, f: "F") -> "F":
-        def wrapped(func, *args, **kwargs):
+        def wrapped(func, /, *args, **kwargs):
             # Obtaining new instance of timer every time
             # ensures thread safety and reentrancy.
             with self._new_timer():
